@@ -293,6 +293,25 @@ def hiveText : Option CreateTable :=
 #guard !tblOK ⟨some "s", "a.b"⟩ && tblOK ⟨some "s", "ab"⟩ && tblOK ⟨none, "t-1"⟩ && !tblOK ⟨none, "a.b"⟩
 #guard intOK 0 && intOK 20 && !intOK (-1)
 
+/-- one column of type `name` with `n` integer parameters -/
+def typeTable (name : String) (n : Nat) : CreateTable :=
+  { emptyCreate ⟨none, "t"⟩ false with
+    columns := [{ name := "c", type := ⟨name, if n == 0 then none else some ((List.range n).map fun i => .literal (toString (i + 1)))⟩,
+                  comment := some "'c'" }] }
+/-- **every type of the regenerated catalogue, with 0, 1 and 2 parameters** (upper and lower case): the MySQL rendering is what the
+lexer gives and is read back; converted with the shipped map (parameters kept), the Hive rendering is what the lexer gives, is read
+back as the projection, and its view is the mapped view -/
+def typeOKAll (name : String) (n : Nat) : Bool :=
+  let c := typeTable name n
+  agrees .MYSQL c && roundTrips .MYSQL c &&
+    (match changeTypeT Gen.mysqlToHive false c with
+     | .ok c' => hiveOK c' && agrees .HIVE (hiveProj c') && roundTrips .HIVE (hiveProj c') &&
+         (match PR.prStmt .HIVE (.createTable c') with | .ok s => eqbL (lexed s) (toksCreate .HIVE c') | .error _ => false)
+     | .error _ => false)
+#guard Gen.mysqlDataTypes.all fun t => [0, 1, 2].all fun n => typeOKAll t.1 n && typeOKAll t.1.toLower n
+-- every image of the map as a Hive column / partition type
+#guard Gen.mysqlToHive.all fun p => [0, 2].all fun n => agrees .HIVE (hiveProj (appendPartitionByColumnT { name := "p", type := ⟨p.2, none⟩ } (typeTable p.2 n)))
+
 /-! instances of the theorems (no evaluation of the parser: the hypotheses are decided in the kernel, the conclusion is the theorem's) -/
 def t1 : CreateTable :=
   { emptyCreate ⟨none, "t"⟩ true with
